@@ -249,6 +249,12 @@ def gen_scenario(seed, family=None):
                    "envfail": rnd.random() < 0.2,
                    "shift": (rnd.choice([3, 11, 250, -4]) if (family == "shifted" or rnd.random() < 0.15) else 0)},
     }
+    sc["probes"]["c13"] = rnd.randrange(1, 10**6) if rnd.random() < 0.04 else 0
+    if sc["probes"]["c13"]:
+        # twins replay only the agent's actions; no other probe may touch the random streams
+        sc["probes"].update(invalid=False, c20=False, reset=False, envfail=False, shift=0)
+        if rnd.random() < 0.4:
+            sc["seed"] = 0
     if sc["probes"]["shift"]:
         # the shifted twin replays only the agent's actions; probes that step the core API would
         # consume samples of stochastic durations in this run but not in the twin
